@@ -266,7 +266,17 @@ func runCheck(o *checkOpts) int {
 		}
 		r.Obls = keep
 	}
-	dischargeAll(results, scratch, o.seed, o.timeout, o.par, o.tier == "thorough")
+	var inLedger func(string) bool
+	if !o.updateLedger && o.prop != "" {
+		led := map[string]bool{}
+		for _, n := range loadLedger()[o.prop] {
+			led[n] = true
+		}
+		if len(led) > 0 {
+			inLedger = func(n string) bool { return led[n] }
+		}
+	}
+	dischargeAll(results, scratch, o.seed, o.timeout, o.par, o.tier == "thorough", inLedger)
 	if o.dump != "" {
 		os.MkdirAll(o.dump, 0o755)
 		for _, r := range results {
